@@ -255,6 +255,15 @@ def h_compose_history(env, N, places, extra, scenario, cls='CliffordCircuit'):
         o = M.pa.PauliList(gs.copy(), ps.copy())
         circ.forward(o)
         return o
+
+    def roundtrip_ok(circ, name):
+        o = M.pa.PauliList(gs.copy(), ps.copy())
+        r_ = env.run(lambda: circ.backward(circ.forward(o)))
+        env.goal(name + '_backward_undoes_forward', b_and(b_not(r_.raised), b_and(arr_eq(o.gs, gs), arr_eq(o.ps, ps))))
+        o2 = M.pa.PauliList(gs.copy(), ps.copy())
+        r2_ = env.run(lambda: circ.forward(circ.backward(o2)))
+        env.goal(name + '_forward_undoes_backward', b_and(b_not(r2_.raised), b_and(arr_eq(o2.gs, gs), arr_eq(o2.ps, ps))))
+        env.goal(name + '_layer_chains_consistent', [id(l) for l in circ.layers_forward()] == [id(l) for l in circ.layers_backward()][::-1])
     if scenario == 'extend_total':
         total = M.ci.identity_circuit(N)
         res = env.run(lambda: (total.compose(part), total.take(gates[-1]), action(part), action(total)))
@@ -265,6 +274,8 @@ def h_compose_history(env, N, places, extra, scenario, cls='CliffordCircuit'):
             env.goal('part_keeps_its_action', b_and(arr_eq(a.gs[0], g), eq(a.ps[0], p)))
             g, p = expect(tables)
             env.goal('composite_is_part_then_gate', b_and(arr_eq(t.gs[0], g), eq(t.ps[0], p)))
+        roundtrip_ok(part, 'part')
+        roundtrip_ok(total, 'composite')
     elif scenario == 'extend_part':
         total = M.ci.identity_circuit(N)
         res = env.run(lambda: (total.compose(part), part.take(gates[-1]), action(part), action(total)))
@@ -275,6 +286,8 @@ def h_compose_history(env, N, places, extra, scenario, cls='CliffordCircuit'):
             env.goal('part_is_extended', b_and(arr_eq(a.gs[0], g), eq(a.ps[0], p)))
             g, p = expect(tables[:-1])
             env.goal('composite_unaffected', b_and(arr_eq(t.gs[0], g), eq(t.ps[0], p)))
+        roundtrip_ok(part, 'part')
+        roundtrip_ok(total, 'composite')
     elif scenario == 'repeat':
         total = M.ci.identity_circuit(N)
         res = env.run(lambda: (total.compose(part), total.compose(part), total.compose(part), action(total), action(part)))
